@@ -603,6 +603,38 @@ class Rectangle(Shape):
         self._upper_coord = complex(max(first.real, second.real),
                                     max(first.imag, second.imag))
 
+    # The corners of the rectangle are stored as absolute coordinates.
+    # Therefore, they must follow the center of the rectangle when its
+    # position is changed.
+    @property
+    def pos(self) -> complex:
+        """
+        Get the position (center) of the rectangle.
+
+        Returns
+        -------
+        complex
+            The position of the center of the rectangle.
+        """
+        return self._pos
+
+    @pos.setter
+    def pos(self, value: complex) -> None:
+        """
+        Set the position (center) of the rectangle.
+
+        Parameters
+        ----------
+        value : complex
+            The new position of the center of the rectangle.
+        """
+        diff = value - self._pos
+        self._lower_coord += diff
+        self._upper_coord += diff
+        # Call the 'pos' setter of the next class in the MRO (it can be
+        # the one in the AccessPoint class, which also moves the users)
+        super(Rectangle, type(self)).pos.fset(self, value)  # type: ignore
+
     def __repr__(self) -> str:  # pragma: no cover
         """
         Representation of a Rectangle object.
